@@ -52,6 +52,7 @@ fn build_table(ctx: &Ctx, thorough: bool) -> Vec<ExText> {
         cross_alias: 300,
         long_scalar: 30,
         deep: 0,
+        many: 0,
     };
     let mut per_m = vec![0u64; max_m + 2];
     let mut table = Vec::new();
